@@ -4,7 +4,7 @@
    Wal/CrcTab.v, Wal/Pb.v; it is tied to the Go code by the differential run of ./check C16. *)
 Require Import Base.Bytes Wal.Crc32c Wal.CrcTab Wal.Pb Wal.WalModel Wal.SnapModel.
 Require Import Wal.FrameProofs Wal.CrcProofs Wal.PbProofs Wal.WalProofs Wal.WalRefuted Wal.SnapProofs.
-Require Import Wal.TornProofs Wal.RepairProofs Wal.ReadAllProofs.
+Require Import Wal.TornProofs Wal.RepairProofs Wal.ReadAllProofs Wal.RoundtripProofs.
 Local Open Scope N_scope.
 
 (* ------------------------------------------------------------------ frames *)
@@ -77,6 +77,43 @@ Theorem C16_record_roundtrip : forall rs last crc k,
   decode_whole last crc (bs ++ zerosN k) = (rs', FEnd, blen bs, crc').
 Proof. exact record_roundtrip. Qed.
 Print Assumptions C16_record_roundtrip.
+
+(* C16_roundtrip: ANY sequence of Save / SaveSnapshot / segment cuts (the cut Save performs when
+   the tail passed SegmentSizeBytes), with arbitrary payloads, written by Create+Save+
+   SaveSnapshot+cut into segment files of any size that is a multiple of 8, is read back by
+   Open+ReadAll exactly: the metadata, the last non-empty hard state, and the entry log the
+   saves define (spec_run: every entry cuts the log at its index and is appended — plain append
+   for entries that continue the log, replacement of the suffix for a new leader's overwrite).
+   op_ok only bounds sizes (fields below 2^64, messages below 2^56 bytes) and asks later
+   snapshots to have a non-zero index. *)
+Theorem C16_roundtrip : forall meta ops segsize log hs,
+  meta_ok meta -> Forall op_ok ops -> segsize mod 8 = 0 ->
+  spec_run ops = Some (log, hs) ->
+  read_all true 0 0 (map file_bytes (w_files segsize (w_run meta ops))) = RAOk meta hs log true.
+Proof. exact roundtrip. Qed.
+Print Assumptions C16_roundtrip.
+
+(* what spec_run means *)
+Theorem C16_roundtrip_spec :
+  (forall ents log, contiguous (N.of_nat (length log) + 1) ents -> log_puts log ents = Some (log ++ ents))
+  /\ (forall log e j, e_index e = N.of_nat j + 1 -> (j <= length log)%nat ->
+                      log_put log e = Some (firstn j log ++ [e])).
+Proof. split; [exact log_puts_append | exact log_put_overwrite]. Qed.
+Print Assumptions C16_roundtrip_spec.
+
+(* non-vacuity: three saves with a cut in between and an overwrite of entry 2 *)
+Definition ex_e (t i : N) (d : bytes) : entry := mkentry 0 t i (Some d).
+Definition ex_ops : list wop :=
+  [OpSave (mkhs 1 1 0) [ex_e 1 1 [x61]; ex_e 1 2 [x62]];
+   OpCut;
+   OpSnap (mkwalsnap 1 1 (Some []));
+   OpSave (mkhs 2 2 1) [ex_e 2 2 [x63; x64]; ex_e 2 3 []]].
+Example C16_roundtrip_ex :
+  spec_run ex_ops = Some ([ex_e 1 1 [x61]; ex_e 2 2 [x63; x64]; ex_e 2 3 []], mkhs 2 2 1)
+  /\ length (w_files 4096 (w_run (Some [x6d]) ex_ops)) = 2%nat
+  /\ read_all true 0 0 (map file_bytes (w_files 4096 (w_run (Some [x6d]) ex_ops)))
+     = RAOk (Some [x6d]) (mkhs 2 2 1) [ex_e 1 1 [x61]; ex_e 2 2 [x63; x64]; ex_e 2 3 []] true.
+Proof. vm_compute. repeat split; reflexivity. Qed.
 
 (* a single changed byte inside the CRC-covered data of a stored record: the stored bytes are
    the original frame with that one byte replaced, and decodeRecord rejects them — with
